@@ -21,6 +21,20 @@ def cases(tier, seed):
     if tier == 'quick':
         strs = strs[:1] + rng.sample(strs[1:], min(70, len(strs) - 1))
     seps = ['', ',', 'a', ' ', 'é', 'ab', ',,', '😀', 'a,']
+    # $pad: every pad string of 1..4 code points over characters of UTF-8 width 1, 2, 3 and 4, every width -12..12, on
+    # subjects of 0..3 code points: the result is subject + the pad string repeated and cut to the missing code points
+    padchars = ['a', 'é', '€', '😀']
+    padstrs = [''.join(t) for L in (1, 2, 3, 4) for t in itertools.product(padchars, repeat=L)]
+    if tier == 'quick':
+        padstrs = [x for x in padstrs if len(x) <= 2] + rng.sample([x for x in padstrs if len(x) > 2], 60)
+    for c in padstrs:
+        for s0 in (['', 'x', 'é😀', 'a€b'] if tier != 'quick' else rng.sample(['', 'x', 'é😀', 'a€b'], 2)):
+            for w in (range(-12, 13) if tier != 'quick' else rng.sample(range(-12, 13), 6)):
+                add('$pad(s, %d, c)' % w, {'s': s0, 'c': c}, ('pad-multi',))
+                need = max(abs(w) - len(s0), 0)
+                filler = (c * (need // len(c) + 1))[:need]
+                want = (s0 + filler) if w >= 0 else (filler + s0)
+                add('$pad(s, %d, c) = w' % w, {'s': s0, 'c': c, 'w': want}, ('pad-multi', 'law', 'law-total'))
     for s in strs:
         d = {'s': s}
         add('$length(s)', d, ('length',))
@@ -70,6 +84,6 @@ def cases(tier, seed):
 def run(tier, seed, replay=None):
     return simple_run('C16', tier, seed, replay,
         'strings up to length 2 (quick, sampled) / 3 (thorough, exhaustive) over an alphabet of ASCII, 2-, 3- and 4-byte characters, white space and separators; '
-        'start/length/width/limit parameters -8..8 in steps of 0.5; pad/separator strings of length 0..2; random strings of 4..40 code points; the inverse laws '
+        'start/length/width/limit parameters -8..8 in steps of 0.5; pad/separator strings of length 0..2; $pad with every pad string of 1..4 code points over UTF-8 widths 1..4 x widths -12..12 (with the expected result computed in Python); random strings of 4..40 code points; the inverse laws '
         'evaluated inside JSONata; wrong-typed and missing arguments; distinct = distinct (expression, input)',
         cases)
